@@ -21,7 +21,14 @@ import (
 	"verif/engine/interp"
 )
 
-const verifDir = "/verif"
+// verifDir is /verif; VERIF_DIR points the driver at a scratch copy while developing
+// (the registered commands never set it).
+var verifDir = func() string {
+	if d := os.Getenv("VERIF_DIR"); d != "" {
+		return d
+	}
+	return "/verif"
+}()
 
 // repoDir is /repo; VERIF_REPO redirects the checks to a scratch worktree (used
 // only to try seeded changes without touching /repo).
